@@ -567,6 +567,127 @@ def check_eval(run: Run, prog: Program) -> None:
               "a constant operand is not emitted in place", node=pc.node, file=pc.file)
 
 
+def check_model(run: Run, prog: Program, seed: int, max_ops: int = 4) -> None:
+    """Thorough: exhaustive check of the *extracted* shift/reduce model.
+
+    The decision function obtained by partial evaluation of push_oper (nothing from the repository is
+    executed) drives an abstract shunting-yard over every well-formed token string with up to
+    `max_ops` binary operators over + - * / and every parenthesisation; the resulting post-fix
+    program is evaluated over the rationals at three points and compared with Python's own parse of
+    the same infix string.  This discharges the lemma "operator-precedence parsing is determined
+    by the pairwise relation" for the extracted matrix instead of assuming it."""
+    import itertools
+    import random
+    from fractions import Fraction
+
+    fn = prog.func(f"{ENGINE}:FormulaBuilder.push_oper")
+    table = precedence_table(prog)
+    cache: dict[tuple[str, str], str] = {}
+
+    def dec(prev: str, new: str) -> str:
+        if (prev, new) not in cache:
+            cache[(prev, new)] = decision(fn, table, prev, new)
+        return cache[(prev, new)]
+
+    def compile_tokens(tokens: list[str]) -> list[str]:
+        out: list[str] = []
+        stack: list[str] = []
+        for t in tokens:
+            if t not in "+-*/()":
+                out.append(t)
+                continue
+            if t != "(":
+                while stack:
+                    d = dec(stack[-1], t)
+                    if d == "shift":
+                        break
+                    if d == "discard":
+                        stack.pop()
+                        break
+                    if d == "reduce-and-stop":
+                        out.append(stack.pop())
+                        break
+                    out.append(stack.pop())
+            if t != ")":
+                stack.append(t)
+        while stack:
+            out.append(stack.pop())
+        return out
+
+    def eval_postfix(prog_: list[str], env: dict[str, Fraction]) -> Fraction | None:
+        st: list[Fraction] = []
+        for t in prog_:
+            if t in "+-*/":
+                if len(st) < 2:
+                    return None
+                b, a = st.pop(), st.pop()
+                if t == "/" and b == 0:
+                    return None
+                st.append({"+": a + b, "-": a - b, "*": a * b, "/": a / b if b != 0 else Fraction(0)}[t])
+            elif t in "()":
+                return None
+            else:
+                st.append(env[t])
+        return st[0] if len(st) == 1 else None
+
+    def exprs(n_ops: int) -> list[list[str]]:
+        """All infix token lists with n_ops operators, operands a,b,c,..., every parenthesisation."""
+        names = "abcdef"[: n_ops + 1]
+
+        def build(lo: int, hi: int) -> list[list[str]]:
+            if lo == hi:
+                return [[names[lo]]]
+            res = []
+            for k in range(lo, hi):
+                for op in "+-*/":
+                    for l in build(lo, k):
+                        for r in build(k + 1, hi):
+                            for lp in ((False, True) if len(l) > 1 else (False,)):
+                                for rp in ((False, True) if len(r) > 1 else (False,)):
+                                    res.append((["("] + l + [")"] if lp else l) + [op] + (["("] + r + [")"] if rp else r))
+            return res
+
+        seen = set()
+        out = []
+        for e in build(0, n_ops):
+            key = " ".join(e)
+            if key not in seen:
+                seen.add(key)
+                out.append(e)
+        return out
+
+    rng = random.Random(seed)
+    points = [{n: Fraction(rng.randint(2, 97), rng.randint(2, 89)) * rng.choice((1, -1)) for n in "abcdef"} for _ in range(3)]
+    total = bad = 0
+    for n_ops in range(1, max_ops + 1):
+        for toks in exprs(n_ops):
+            total += 1
+            post = compile_tokens(toks)
+            infix = " ".join(toks)
+            ok = True
+            for env in points:
+                try:
+                    want = eval(compile(ast.parse(infix, mode="eval"), "<expr>", "eval"), {"__builtins__": {}}, dict(env))  # noqa: S307
+                except ZeroDivisionError:
+                    continue
+                got = eval_postfix(post, env)
+                if got is None or got != want:
+                    ok = False
+            if not ok:
+                bad += 1
+                if bad <= 3:
+                    run.violation("C05.PREC", fn.qual, f"model: `{infix}` compiles to `{' '.join(post)}`",
+                                  f"under the shift/reduce decisions extracted from push_oper the string `{infix}` "
+                                  f"compiles to the post-fix program `{' '.join(post)}`, which does not evaluate to the "
+                                  "value of the expression under ordinary precedence and left-to-right associativity",
+                                  node=fn.node, file=fn.file)
+    if not bad:
+        run.ok("C05.PREC", f"extracted shunting-yard model agrees with ordinary arithmetic on all {total} token strings "
+               f"with <= {max_ops} operators (every parenthesisation)")
+    run.extra_cov["model_expressions"] = total
+    run.sample({"model_check": {"expressions": total, "disagreements": bad, "max_operators": max_ops}})
+
+
 CONTROLS = [
     ("two precedences swapped", ENGINE, '    "/": 5,\n    "*": 6,\n    "-": 7,\n    "+": 8,',
      '    "/": 5,\n    "*": 7,\n    "-": 6,\n    "+": 8,', "C05.PREC"),
@@ -604,6 +725,10 @@ def check(run: Run, prog: Program, tier: str) -> str:
     run.rule("C05.PAREN", "HO builder: X -> ( X ) op Y with Y atom or ( Y' ), for several shapes of Y'")
     run.rule("C05.EVAL", "all steps applied in order on a fresh stack; one residual; LIFO finalize; shared fetcher")
     run_rules(run, prog)
+    if tier == "thorough":
+        check_model(run, prog, run.seed, max_ops=5)
+    else:
+        check_model(run, prog, run.seed, max_ops=2)
     run.floor("C05.PREC", 30)
     run.floor("C05.TAB", 12)
     run.floor("C05.STEP", 10)
